@@ -175,6 +175,27 @@ func canonicals() []canonical {
 			out = append(out, canonical{Name: fmt.Sprintf("%s+lists-of-%d", on, n), Tree: msg, Scope: []int{0}})
 		}
 	}
+	// lists whose members repeat or have a meaning of their own (the "no attributes" selector 1.1, all user / all
+	// operational attributes, the empty string, case variants), as search selections and as the attribute types of
+	// add and modify requests
+	for li, list := range [][]string{{"1.1"}, {"1.1", "1.1"}, {"1.1", "cn", "1.1"}, {"cn", "1.1", "1.1", "1.1"}, {"*", "+", "*"}, {"cn", "cn", "CN"}, {"", "", ""}, {"+", "1.1", "*", "1.1"}} {
+		var names [][]byte
+		var attrs []sber.Attr
+		var changes []sber.Change
+		for i, n := range list {
+			names = append(names, []byte(n))
+			attrs = append(attrs, sber.Attr{Type: []byte(n), Vals: [][]byte{[]byte("v")}})
+			changes = append(changes, sber.Change{Op: int64(i % 3), Attr: sber.Attr{Type: []byte(n), Vals: [][]byte{[]byte("v")}}})
+		}
+		for oi, op := range []*sber.Node{
+			sber.Search{Base: []byte("dc=example"), Scope: 2, Filter: sber.PresentFilter("objectClass"), Attrs: names}.Node(),
+			sber.AddRequest([]byte("cn=sel,dc=example"), attrs),
+			sber.ModifyRequest([]byte("cn=sel,dc=example"), changes),
+		} {
+			on := []string{"search", "add", "modify"}[oi]
+			out = append(out, canonical{Name: fmt.Sprintf("%s+special-list-%d", on, li), Tree: sber.Seq(sber.Int(int64(200+li)), op), Scope: []int{1}})
+		}
+	}
 	for _, on := range opNames {
 		for ci, cv := range ctlVariants {
 			msg := sber.Seq(sber.Int(int64(7+ci)), ops[on]())
